@@ -10,7 +10,7 @@ import ast
 from dataclasses import dataclass, field
 from typing import Dict, List, Optional, Tuple
 
-from .expr import C, FALSE, NONE, SELF, TRUE, _norm_node, is_const, is_num_const, norm, root_of, show
+from .expr import C, FALSE, NONE, SELF, TRUE, _norm_node, is_const, is_num_const, norm, root_of, show, strip_epochs
 from .model import AnalysisError, ClassInfo, FuncInfo, ModuleInfo, Program, mangle
 
 BINOPS = {ast.Add: "+", ast.Sub: "-", ast.Mult: "*", ast.Div: "/", ast.FloorDiv: "//", ast.Mod: "%",
@@ -84,7 +84,7 @@ class Cond:
 
 
 class State:
-    __slots__ = ("env", "fields", "epochs", "conds", "events", "loops", "exit", "stack", "notes", "gepoch")
+    __slots__ = ("env", "fields", "epochs", "conds", "events", "loops", "exit", "stack", "notes", "gepoch", "last")
 
     def __init__(self):
         self.env: Dict[str, tuple] = {}
@@ -97,6 +97,7 @@ class State:
         self.stack: List[Frame] = []
         self.notes: List[str] = []
         self.gepoch = 0
+        self.last: Dict[tuple, tuple] = {}  # container -> (its epoch right after the append, the appended value)
 
     def copy(self) -> "State":
         s = State()
@@ -110,6 +111,7 @@ class State:
         s.stack = list(self.stack)
         s.notes = list(self.notes)
         s.gepoch = self.gepoch
+        s.last = dict(self.last)
         return s
 
     @property
@@ -1036,6 +1038,10 @@ class Walker:
             return cont[1][idx[1]]
         if cont[0] == "unpall" and is_const(idx) and isinstance(idx[1], int):
             return ("unp", cont[1], idx[1], cont[2])
+        if idx == C(-1):
+            hit = st.last.get((self.key_of(cont), strip_epochs(cont)))
+            if hit is not None and hit[0] == self.epoch(st, cont):
+                return hit[1]
         if idx[0] == "ix" and idx[2] == cont:
             return ("it", idx[1], cont)
         return ("sub", cont, idx, self.epoch(st, cont))
@@ -1086,6 +1092,15 @@ class Walker:
                         comps.append(self.decide(_norm_node(c) or c, s))
                     x = ("and" if o == "==" else "or", tuple(comps))
                     parts.append(_norm_node(x) or x)
+                    continue
+                if o in ("in", "notin") and b[0] in ("tup", "lst", "set") and 0 < len(b[1]) <= 4 and all(is_const(m) for m in b[1]):
+                    # x in (k1, k2)  is  x == k1 or x == k2  for a short literal collection of constants
+                    comps = []
+                    for m in b[1]:
+                        c = ("cmp", "==" if o == "in" else "!=", a, m)
+                        comps.append(self.decide(_norm_node(c) or c, s))
+                    x = ("or" if o == "in" else "and", tuple(comps)) if len(comps) > 1 else comps[0]
+                    parts.append((_norm_node(x) or x) if len(comps) > 1 else x)
                     continue
                 x = ("cmp", o, a, b)
                 x = _norm_node(x) or x
@@ -1183,6 +1198,10 @@ class Walker:
                 cur, cv = rc[0]
                 conds.append(cv)
             gens.append(("gen", lid, dom, tuple(conds)))
+        # the element expression runs once per iteration: what it writes (through calls) is unknown at the start of the generic one
+        body = [ast.Expr(n.key), ast.Expr(n.value)] if isinstance(n, ast.DictComp) else [ast.Expr(n.elt)]
+        hlid = gens[-1][1]
+        self._havoc(cur, body, hlid, "")
         if isinstance(n, ast.DictComp):
             r = self.ev_seq([n.key, n.value], cur)
             cur, kv = r[0]
@@ -1192,6 +1211,7 @@ class Walker:
             if len(r) != 1:
                 raise AnalysisError(f"forking comprehension element at {st.frame.func.where(n)}")
             cur, elt = r[0]
+        self._havoc(cur, body, hlid, "+")
         cur.loops = loops_before
         cur.env = saved
         return [(cur, ("comp", kind, elt, tuple(gens)))]
@@ -1223,7 +1243,7 @@ class Walker:
                 known = base[0] in ("struct", "extmod", "ext", "super", "cls") or self.typeof(base, s) is not None
                 for s2, vals in self.ev_seq(argnodes + kwnodes, s):
                     args = vals[:len(argnodes)]
-                    kwargs = dict(zip(kwnames, vals[len(argnodes):]))
+                    kwargs = _expand_kwdict(dict(zip(kwnames, vals[len(argnodes):])))
                     if not known:
                         out.extend(self.generic_mcall(base, n.func.attr, args, kwargs, s2, n))
                         continue
@@ -1236,7 +1256,7 @@ class Walker:
         for s, vals in self.ev_seq([n.func] + argnodes + kwnodes, st):
             fn = vals[0]
             args = vals[1:1 + len(argnodes)]
-            kwargs = dict(zip(kwnames, vals[1 + len(argnodes):]))
+            kwargs = _expand_kwdict(dict(zip(kwnames, vals[1 + len(argnodes):])))
             out.extend(self.do_call(fn, args, kwargs, s, n))
         return out
 
@@ -1349,6 +1369,9 @@ class Walker:
                   mutates=mut, result=v, io=name in IO_MUTATING)
         if mut:
             self.bump(st, recv)
+            if name == "append" and len(args) == 1 and not kwargs:
+                # xs.append(v); xs[-1]  reads v back for as long as nothing else touches xs (same epoch)
+                st.last[(self.key_of(recv), strip_epochs(recv))] = (self.epoch(st, recv), args[0])
         return [(st, v)]
 
     def construct(self, cls: ClassInfo, args, kwargs, st: State, node):
@@ -1503,7 +1526,8 @@ class Walker:
             if a.vararg:
                 s.env[a.vararg.arg] = ("tup", tuple(extra))
             if a.kwarg:
-                s.env[a.kwarg.arg] = ("dct", ())
+                known = set(pnames) | {x.arg for x in a.kwonlyargs}
+                s.env[a.kwarg.arg] = ("kwdict", tuple(sorted((k_, v_) for k_, v_ in bound.items() if k_ not in known)))
         out = []
         for s in self.block(f.body(), cur):
             ex = s.exit
@@ -1519,8 +1543,24 @@ class Walker:
         return out
 
 
+def _expand_kwdict(kwargs: dict) -> dict:
+    """f(..., **kw) where kw is the keyword dictionary a looked-through function received: pass its items on by name"""
+    v = kwargs.get(None)
+    if v is not None and v[0] == "kwdict":
+        kwargs = {k: x for k, x in kwargs.items() if k is not None}
+        for k, x in v[1]:
+            kwargs.setdefault(k, x)
+    return kwargs
+
+
 def _tuple_compare(test) -> bool:
-    return isinstance(test, ast.Compare) and isinstance(test.left, ast.Tuple) and all(isinstance(c, ast.Tuple) for c in test.comparators)
+    """comparisons that the walker decomposes into a boolean combination of scalar comparisons"""
+    if not isinstance(test, ast.Compare):
+        return False
+    if isinstance(test.left, ast.Tuple) and all(isinstance(c, ast.Tuple) for c in test.comparators):
+        return True
+    return len(test.ops) == 1 and isinstance(test.ops[0], (ast.In, ast.NotIn)) and isinstance(test.comparators[0], (ast.Tuple, ast.List, ast.Set)) \
+        and 0 < len(test.comparators[0].elts) <= 4
 
 
 def _transparent_decorator(d: str) -> bool:
